@@ -23,7 +23,7 @@ def modules_of(spec):
     return ["a", "b"] + (["c"] if any(n["module"] == "c" for n in spec["nodes"]) else [])
 
 
-def gen_spec(rng, n_m=4, n_p=3, n_v=3, pkg="vpk", p_hidden=0.15, p_explicit=0.2, allow_cycles=True, n_u=1, pkg2=False, outside_helpers=False, lambdas=False, twins=False, hdr=False):
+def gen_spec(rng, n_m=4, n_p=3, n_v=3, pkg="vpk", p_hidden=0.15, p_explicit=0.2, allow_cycles=True, n_u=1, pkg2=False, outside_helpers=False, lambdas=False, twins=False, hdr=False, vdef=False):
     nodes = []
     names = []
     unames = ["U%d" % i for i in range(n_u)]
@@ -128,6 +128,15 @@ def gen_spec(rng, n_m=4, n_p=3, n_v=3, pkg="vpk", p_hidden=0.15, p_explicit=0.2,
                      and fns.index(c) < fns.index(n) and c["name"] not in [r[0] for r in n["refs"]]]
             if cands:
                 n["refs"].append([r2.choice(cands)["name"], "hdr"])
+    if vdef:
+        # a mutable module variable used as the DEFAULT VALUE of a parameter (the function object keeps that very object)
+        for n in fns:
+            if n.get("lam") or n.get("outside") or r2.random() >= 0.4:
+                continue
+            cands = [c for c in nodes if c["kind"] == "v" and c.get("vkind") in ("list", "dict") and c["module"] == n["module"]
+                     and c["name"] not in [r[0] for r in n["refs"]]]
+            if cands:
+                n["refs"].append([r2.choice(cands)["name"], "vdef"])
     if twins:
         # two module variables with the same symbol in different modules, each read by a function of its own module,
         # both reachable from one memento function
@@ -169,6 +178,8 @@ def def_lines(spec, n):
     for rf in n["refs"]:
         if rf[1] == "hdr":
             params.append("kf_%s=%s" % (rf[0], sym(node(spec, rf[0]))))
+        elif rf[1] == "vdef":
+            params.append("vd_%s=%s" % (rf[0], sym(node(spec, rf[0]))))
     if n.get("objdefault"):
         params.append("o=_CFG")
     if n["kwdefault"] is not None:
@@ -216,6 +227,8 @@ def def_lines(spec, n):
             ref = sym(t)
         if form == "hdr":
             out.append("    r += kf_%s(x - 1)" % tname)
+        elif form == "vdef":
+            out.append("    r += _num(vd_%s)" % tname)
         elif form == "live":
             out.append("    r += int(%s(x + 0.5))" % ref)
         elif t["kind"] == "u" or form == "dead":
